@@ -9,6 +9,7 @@ Not decided: the run-time behaviour on concrete alignment files.
 """
 
 import ast
+import collections
 import itertools
 
 from sa.cfg import cfg_of
@@ -123,36 +124,27 @@ def _fmt(p):
 
 
 def r2(repo, res):
-    # (a) _normalize_coverage: empty neutral region raises before the division
+    # (a) _normalize_coverage folded whole: an empty neutral region (sample or profile side) ends in AldyException and nothing is stored
+    import checks.c07 as c07
+
     f = repo.func("coverage::Coverage._normalize_coverage")
     res.analysed(f)
-    c = cfg_of(f)
-    ref_names = names_assigned_from(
-        f, lambda e: isinstance(e, ast.Call) and call_name(e) == "sum" and "_cnv_coverage" in ast.unparse(e))
-    if not ref_names:
-        res.err("C19.R2", "sample neutral depth (sum over _cnv_coverage) not found in _normalize_coverage")
+    table, cnv = c07.depth_table()
+    data = {"G": {"e1": [40.0, 30.0], "i1": [0, 0], "e2": [55.0, 70.0]}}
+    try:
+        k1, v1, o1 = c07.fold_normalize(repo, table, collections.defaultdict(int), data, 30.0)
+        k2, v2, o2 = c07.fold_normalize(repo, table, cnv, data, 0.0)
+        k3, v3, o3 = c07.fold_normalize(repo, table, cnv, data, 30.0)
+    except (Unfoldable, Raised) as e:
+        res.err("C19.R2", f"_normalize_coverage outside folding language: {e}")
         return
-    ref = ref_names[0]
-    divs = [n for n in walk_local(f) if isinstance(n, ast.BinOp) and isinstance(n.op, ast.Div)
-            and any(isinstance(x, ast.Name) and x.id == ref for x in ast.walk(n.right))]
-    res.floor("C19.R2", "divisions by the neutral depth", len(divs), 1)
-    for d in divs:
-        gs = exiting_guards(c, c.node_of(d), kinds=("raise",))
-        tab = guard_table(gs, [{"v": 0}, {"v": 0.0}, {"v": 7}], lambda p: {ref: p["v"]})
-        ok = tab[0] and tab[1]
-        res.ob("C19.R2", f, d, ok,
-               expected=f"raise on {ref} == 0 dominates the division",
-               found="dominating raising guards: " + fmt_tests(gs),
-               clause="a sample with no reads in the copy-number-neutral region is rejected",
-               key="neutral-zero-guard")
-    # writes of the normalised table must come after the guard as well
-    stores = [n for n in walk_local(f) if isinstance(n, ast.Assign)
-              and any(isinstance(t, ast.Subscript) and "_region_coverage" in ast.unparse(t.value) for t in n.targets)]
-    for s in stores:
-        gs = exiting_guards(c, c.node_of(s), kinds=("raise",))
-        tab = guard_table(gs, [{"v": 0}], lambda p: {ref: p["v"]})
-        res.ob("C19.R2", f, s, tab[0], expected="normalised depth is stored only after the empty-region guard",
-               found="dominating raising guards: " + fmt_tests(gs), key="store-after-guard")
+    res.ob("C19.R2", f, f, (k1, v1) == ("raise", "AldyException") and not o1,
+           expected="no reads in the copy-number-neutral region -> AldyException, no normalised depth stored", found=f"{k1} {v1}; cells stored: {len(o1)}",
+           clause="a sample with no reads in the copy-number-neutral region is rejected", key="neutral-zero-guard")
+    res.ob("C19.R2", f, f, (k2, v2) == ("raise", "AldyException") and not o2, expected="profile without neutral depth -> AldyException, nothing stored",
+           found=f"{k2} {v2}; cells stored: {len(o2)}", key="store-after-guard")
+    res.ob("C19.R2", f, f, k3 != "raise" and len(o3) == 6, expected="with reads on both sides the six (gene part, region) cells are normalised", found=f"{k3}; {len(o3)} cells",
+           key="normalises-otherwise")
 
     # (b) Sample.__init__: normalisation and diploid guard run whenever there is a neutral region
     g = repo.func("sam::Sample.__init__")
